@@ -1,38 +1,597 @@
-"""Monitors: property predicates evaluated on IMPLEMENTATION traces (search for a concrete
-failing input).  Each returns a list of failures {monitor, signature, op, detail}."""
+"""Monitors: property predicates evaluated on IMPLEMENTATION traces (the search for a concrete
+failing input, DESIGN.md 5).  They are written independently of the Lean model (own glob, own
+state reconstruction from the hook dump) and are deliberately conservative: a monitor only
+fires on something the property statement itself forbids.
+
+Each monitor returns a list of failures {monitor, signature, op, detail}."""
 import re
 from . import canon
+from .canon import unesc, unesc_list
 
 
-def _events(op):
-    return op.events
+# ------------------------------------------------------------------ state reconstruction
+
+class St:
+    __slots__ = ("users", "chans", "conns", "cnt", "wallops", "hist")
 
 
-def mon_nopanic(seq, cfg):
-    out = []
+def opt(tok):
+    return None if tok == "-" else unesc(tok[1:])
+
+
+def parse_state(op):
+    s = St()
+    s.users, s.chans, s.conns, s.cnt, s.wallops, s.hist = {}, {}, {}, None, set(), {}
+    for l in op.st:
+        t = l.split(" ")
+        k = t[1]
+        if k == "user":
+            s.users[unesc(t[2])] = dict(name=unesc(t[3]), real=unesc(t[4]), host=unesc(t[5]), src=unesc(t[6]),
+                                        modes=unesc(t[7]), away=opt(t[8]), chans=set(unesc_list(t[9])),
+                                        invited=set(unesc_list(t[10])), killed=t[14] == "1")
+        elif k == "chan":
+            s.chans.setdefault(unesc(t[2]), {"members": {}, "bans": {}}).update(
+                topic=opt(t[3]), flags=unesc(t[5]), key=opt(t[6]),
+                limit=None if t[7] == "-" else int(t[7][1:]),
+                ban=set(unesc_list(t[8])), exc=set(unesc_list(t[9])), invex=set(unesc_list(t[10])),
+                q=set(unesc_list(t[11])), a=set(unesc_list(t[12])), o=set(unesc_list(t[13])),
+                h=set(unesc_list(t[14])), v=set(unesc_list(t[15])), pre=t[21] == "1")
+        elif k == "member":
+            s.chans.setdefault(unesc(t[2]), {"members": {}, "bans": {}})["members"][unesc(t[3])] = unesc(t[4])
+        elif k == "cnt":
+            s.cnt = tuple(int(x) for x in t[2:6])
+        elif k == "wallops":
+            s.wallops = set(unesc_list(t[2]))
+        elif k == "conn":
+            s.conns[int(t[2])] = dict(nick=opt(t[3]), name=opt(t[4]), src=unesc(t[8]), auth=t[9] == "1",
+                                      reg=t[10] == "1", capneg=t[11] == "1", quit=t[13] == "1")
+    return s
+
+
+def glob(p, t):
+    """reference glob: '*' any run, '?' one char, case-sensitive, whole text"""
+    pi = ti = 0
+    star = -1
+    mark = 0
+    while ti < len(t):
+        if pi < len(p) and p[pi] == "*":
+            star = pi
+            mark = ti
+            pi += 1
+        elif pi < len(p) and (p[pi] == "?" or p[pi] == t[ti]):
+            pi += 1
+            ti += 1
+        elif star >= 0:
+            pi = star + 1
+            mark += 1
+            ti = mark
+        else:
+            return False
+    while pi < len(p) and p[pi] == "*":
+        pi += 1
+    return pi == len(p)
+
+
+def op_line(op):
+    p = op.text.split(" ", 2)
+    if p[0] == "line" and len(p) == 3:
+        return int(p[1]), unesc(p[2])
+    return (int(p[1]) if len(p) > 1 and p[1].isdigit() else None), None
+
+
+def parse_irc(line):
+    """RFC grammar: (source, verb, params) or None"""
+    s = line
+    src = None
+    if s.startswith(":"):
+        i = s.find(" ")
+        if i < 0:
+            return None
+        src, s = s[1:i], s[i + 1:]
+    s = s.lstrip(" ")
+    trailing = None
+    i = s.find(" :")
+    if i >= 0:
+        s, trailing = s[:i], s[i + 2:]
+    w = [x for x in s.split(" ") if x != ""]
+    if not w:
+        return None
+    params = w[1:]
+    if trailing is not None:
+        params.append(trailing)
+    return src, w[0], params
+
+
+def fail(mon, sig, op, **detail):
+    detail["op_text"] = op.text
+    return {"monitor": mon, "signature": "%s:%s" % (mon, sig), "op": op.k, "detail": detail}
+
+
+ENDING_KINDS = {"@eof", "@reset", "@toolong", "@badutf8"}
+
+
+def kind_of(op):
+    from .runner import op_kind
+    return op_kind(op.text)
+
+
+# ------------------------------------------------------------------ the monitors
+
+def mon_nopanic(seq, ctx):
     for op in seq.ops:
         for e in op.events:
             w = e.split(" ")
             if w[0] in ("panic", "hang", "livelock", "readtimeout", "clienteof", "fencefail"):
-                site = canon.unesc(w[2]) if len(w) > 2 else ""
-                site = re.sub(r"^(\S+?):\d+", r"\1", site)  # file without line number
-                out.append({"monitor": "nopanic", "signature": "%s:%s" % (w[0], site[:120]),
-                            "op": op.k, "detail": {"event": e, "op_text": op.text}})
-                return out
-    return out
+                site = unesc(w[2]) if len(w) > 2 else ""
+                site = re.sub(r"^(\S+?):\d+", r"\1", site)
+                return [fail("nopanic", "%s:%s" % (w[0], site[:100]), op, event=e)]
+    # unexpected closes: a connection is closed only by its own ending op, a failed password,
+    # or as the victim of KILL / DIE / SQUIT
+    for i, op in enumerate(seq.ops):
+        closed = [int(e.split(" ")[1]) for e in op.events if e.startswith("closed ")]
+        if not closed:
+            continue
+        k = kind_of(op)
+        c, _ = op_line(op)
+        for d in closed:
+            ok = False
+            if d == c and (k in ENDING_KINDS or k == "QUIT"):
+                ok = True
+            elif d == c and any(re.match(r"^:\S+ 464 ", l) for l in op.outs.get(d, [])):
+                ok = True
+            elif k in ("KILL", "DIE", "SQUIT") and any("ERROR :User killed by" in l for l in op.outs.get(d, [])):
+                ok = True
+            if not ok:
+                return [fail("nopanic", "unexpected-close:%s" % k, op, closed=d)]
+    return []
+
+
+def mon_ownership(seq, ctx):
+    prev = None
+    for op in seq.ops:
+        st = parse_state(op)
+        owners = {}
+        for cid, cn in st.conns.items():
+            if cn["auth"]:
+                if cn["nick"] is None or cn["nick"] not in st.users:
+                    return [fail("ownership", "auth-conn-without-user", op, conn=cid, nick=cn["nick"])]
+                owners.setdefault(cn["nick"], []).append(cid)
+        for n in st.users:
+            if len(owners.get(n, [])) != 1:
+                return [fail("ownership", "user-owner-count", op, nick=n, owners=owners.get(n, []))]
+        # a connection that is not registered before and after the op changes no user
+        if prev is not None:
+            c, line = op_line(op)
+            if c is not None and c in prev.conns and not prev.conns[c]["auth"]:
+                still_unreg = (c not in st.conns) or (not st.conns[c]["auth"])
+                if still_unreg and prev.users != st.users:
+                    return [fail("ownership", "unregistered-conn-changed-users", op, conn=c)]
+        prev = st
+    return []
+
+
+ALLOWED_UNREG = {"CAP", "AUTHENTICATE", "PASS", "NICK", "USER", "QUIT"}
+
+
+def mon_gate(seq, ctx):
+    prev = None
+    for op in seq.ops:
+        st = parse_state(op)
+        c, line = op_line(op)
+        if prev is not None and line is not None and c in prev.conns and not prev.conns[c]["auth"]:
+            m = parse_irc(line.lstrip())
+            verb = m[1].upper() if m else None
+            if verb is not None and verb not in ALLOWED_UNREG:
+                outs = op.outs.get(c, [])
+                others = {d: l for d, l in op.outs.items() if d != c and l}
+                changed = (prev.users != st.users or prev.chans != st.chans or prev.wallops != st.wallops)
+                if others or changed or len(outs) > 1:
+                    return [fail("gate", "unregistered-command-had-effect:%s" % verb, op, outs=outs[:3])]
+                if outs and not re.match(r"^:\S+ (451|421|461|472|501|696|ERROR) ", outs[0] + " "):
+                    return [fail("gate", "unregistered-command-answered:%s" % verb, op, outs=outs[:3])]
+        prev = st
+    return []
+
+
+RANKS = [("q", "q"), ("a", "a"), ("o", "o"), ("h", "h"), ("v", "v")]
+
+
+def mon_membership(seq, ctx):
+    for op in seq.ops:
+        st = parse_state(op)
+        for n, u in st.users.items():
+            for ch in u["chans"]:
+                if ch not in st.chans or n not in st.chans[ch]["members"]:
+                    return [fail("membership", "user-lists-channel-without-membership", op, nick=n, chan=ch)]
+        for ch, C in st.chans.items():
+            for n, flags in C["members"].items():
+                if n not in st.users:
+                    return [fail("membership", "member-without-user", op, nick=n, chan=ch)]
+                if ch not in st.users[n]["chans"]:
+                    return [fail("membership", "membership-not-in-user", op, nick=n, chan=ch)]
+            for letter, key in RANKS:
+                holders = {n for n, f in C["members"].items() if letter in f}
+                if holders != C.get(key, set()):
+                    return [fail("membership", "rank-list-differs-from-flags:%s" % letter, op, chan=ch,
+                                 flags=sorted(holders), lst=sorted(C.get(key, set())))]
+    return []
+
+
+def mon_cleanup(seq, ctx):
+    prev = None
+    for op in seq.ops:
+        st = parse_state(op)
+        if prev is not None:
+            for e in op.events:
+                if e.startswith("closed "):
+                    d = int(e.split(" ")[1])
+                    cn = prev.conns.get(d)
+                    if cn and cn["auth"] and cn["nick"]:
+                        n = cn["nick"]
+                        if n in st.users:
+                            return [fail("cleanup", "user-survives-its-connection", op, nick=n)]
+                        for ch, C in st.chans.items():
+                            if n in C["members"] or any(n in C.get(k, set()) for _, k in RANKS):
+                                return [fail("cleanup", "nick-left-in-channel", op, nick=n, chan=ch)]
+                        if n in st.wallops:
+                            return [fail("cleanup", "nick-left-in-wallops", op, nick=n)]
+                        # nothing else changes: other users keep everything
+                        for m, u in prev.users.items():
+                            if m != n and st.users.get(m) != u:
+                                # victims of the same DIE are closed too
+                                if m in st.users:
+                                    return [fail("cleanup", "other-user-changed", op, nick=m)]
+                    elif cn and not cn["auth"]:
+                        if prev.users != st.users or prev.chans != st.chans:
+                            return [fail("cleanup", "unregistered-teardown-changed-state", op, conn=d)]
+        prev = st
+    return []
+
+
+def mon_counters(seq, ctx):
+    maxseen = 0
+    for op in seq.ops:
+        st = parse_state(op)
+        if st.cnt is None:
+            continue
+        inv = sum(1 for u in st.users.values() if "i" in u["modes"])
+        ops_ = sum(1 for u in st.users.values() if "o" in u["modes"] or "O" in u["modes"])
+        maxseen = max(maxseen, len(st.users))
+        if st.cnt[0] != inv:
+            return [fail("counters", "invisible-count", op, counter=st.cnt[0], actual=inv)]
+        if st.cnt[1] != ops_:
+            return [fail("counters", "operators-count", op, counter=st.cnt[1], actual=ops_)]
+        if st.cnt[2] != maxseen:
+            return [fail("counters", "max-users", op, counter=st.cnt[2], actual=maxseen)]
+        if st.cnt[3] != len(st.conns):
+            return [fail("counters", "conns-count", op, counter=st.cnt[3], actual=len(st.conns))]
+        if st.wallops != {n for n, u in st.users.items() if "w" in u["modes"]}:
+            return [fail("counters", "wallops-set", op)]
+        c, line = op_line(op)
+        if line is not None:
+            for l in op.outs.get(c, []):
+                m = re.match(r"^:\S+ 251 \S+ :There are (\d+) users and (\d+) invisible", l)
+                if m and (int(m.group(1)) != len(st.users) - inv or int(m.group(2)) != inv):
+                    return [fail("counters", "lusers-251", op, line=l)]
+                m = re.match(r"^:\S+ 252 \S+ (\d+) ", l)
+                if m and int(m.group(1)) != ops_:
+                    return [fail("counters", "lusers-252", op, line=l)]
+                m = re.match(r"^:\S+ 254 \S+ (\d+) ", l)
+                if m and int(m.group(1)) != len(st.chans):
+                    return [fail("counters", "lusers-254", op, line=l)]
+                m = re.match(r"^:\S+ 303 \S+ :(.*)$", l)
+                if m and kind_of(op) == "ISON":
+                    listed = [x for x in m.group(1).split(" ") if x]
+                    if any(x not in st.users for x in listed):
+                        return [fail("counters", "ison-lists-absent", op, line=l)]
+    return []
+
+
+def mon_audience(seq, ctx):
+    prev = None
+    for op in seq.ops:
+        st = parse_state(op)
+        k = kind_of(op)
+        if prev is not None and k in ("PRIVMSG", "NOTICE"):
+            c, line = op_line(op)
+            cn = prev.conns.get(c)
+            if cn and cn["auth"]:
+                me = cn["nick"]
+                src = cn["src"]
+                seen = set()
+                for d, lines in op.outs.items():
+                    dn = prev.conns.get(d, {}).get("nick")
+                    for l in lines:
+                        m = parse_irc(l)
+                        if not m or m[1] not in ("PRIVMSG", "NOTICE") or len(m[2]) < 2:
+                            continue
+                        if m[0] != src:
+                            return [fail("audience", "wrong-source", op, line=l, expected=src)]
+                        tgt = m[2][0]
+                        if (d, tgt) in seen:
+                            return [fail("audience", "duplicate-copy", op, conn=d, target=tgt)]
+                        seen.add((d, tgt))
+                        chan = tgt.lstrip("~@%+")
+                        if chan[:1] == "&" and chan[1:2] in "#&":
+                            chan = chan.lstrip("&")
+                        if chan[:1] in "#&" and chan in prev.chans:
+                            if dn not in prev.chans[chan]["members"]:
+                                return [fail("audience", "copy-to-non-member", op, conn=d, target=tgt)]
+                            if d == c:
+                                return [fail("audience", "copy-to-sender", op, target=tgt)]
+                        elif tgt in prev.users:
+                            if dn != tgt:
+                                return [fail("audience", "copy-to-wrong-user", op, conn=d, target=tgt)]
+        prev = st
+    return []
+
+
+def mon_notice_silent(seq, ctx):
+    prev = None
+    for op in seq.ops:
+        st = parse_state(op)
+        if prev is not None and kind_of(op) == "NOTICE":
+            c, line = op_line(op)
+            cn = prev.conns.get(c)
+            if cn and cn["auth"]:
+                m = parse_irc(line.lstrip())
+                # only a well-formed NOTICE (it parsed and was executed: no parse error numerics)
+                for l in op.outs.get(c, []):
+                    mm = parse_irc(l)
+                    if mm and mm[1] == "NOTICE":
+                        continue  # a delivery to itself
+                    if re.match(r"^:\S+ (461|ERROR|421) ", l + " "):
+                        continue  # not well-formed
+                    return [fail("notice_silent", "notice-answered", op, line=l)]
+        prev = st
+    return []
+
+
+def mon_opergrant(seq, ctx):
+    prev = None
+    for op in seq.ops:
+        st = parse_state(op)
+        if prev is not None:
+            k = kind_of(op)
+            c, line = op_line(op)
+            for n, u in st.users.items():
+                had = n in prev.users and ("o" in prev.users[n]["modes"])
+                if "o" in u["modes"] and not had:
+                    owner = [d for d, cn in st.conns.items() if cn["auth"] and cn["nick"] == n]
+                    if n not in prev.users:
+                        continue  # registration (default modes) or rename: judged by C15 / config
+                    if k == "OPER" and owner == [c]:
+                        continue
+                    return [fail("opergrant", "oper-without-OPER:%s" % k, op, nick=n)]
+                hadO = n in prev.users and ("O" in prev.users[n]["modes"])
+                if "O" in u["modes"] and not hadO and n in prev.users:
+                    return [fail("opergrant", "local-oper-granted:%s" % k, op, nick=n)]
+            # no user changes another user's modes
+            if c is not None and c in prev.conns and prev.conns[c]["auth"] and k == "MODE":
+                me = prev.conns[c]["nick"]
+                for n, u in st.users.items():
+                    if n != me and n in prev.users and prev.users[n]["modes"] != u["modes"]:
+                        return [fail("opergrant", "foreign-modes-changed", op, nick=n)]
+        prev = st
+    return []
+
+
+def mon_hidden(seq, ctx):
+    prev = None
+    for op in seq.ops:
+        st = parse_state(op)
+        k = kind_of(op)
+        if prev is not None and k in ("LIST", "NAMES", "WHO", "WHOIS"):
+            c, line = op_line(op)
+            cn = prev.conns.get(c)
+            if cn and cn["auth"]:
+                me = cn["nick"]
+                mychans = prev.users.get(me, {}).get("chans", set())
+                secret_out = {ch for ch, C in prev.chans.items() if "s" in C.get("flags", "") and me not in C["members"]}
+                outs = op.outs.get(c, [])
+                for l in outs:
+                    m = re.match(r"^:\S+ (\d\d\d) \S+ ?(.*)$", l)
+                    if not m:
+                        continue
+                    num, rest = m.group(1), m.group(2)
+                    w = rest.split(" ")
+                    if num == "322" and w[0] in secret_out:
+                        return [fail("hidden", "list-shows-secret", op, line=l)]
+                    if num == "353" and len(w) > 1 and w[1] in secret_out:
+                        return [fail("hidden", "names-shows-secret", op, line=l)]
+                    if num == "352" and w[0] in secret_out:
+                        return [fail("hidden", "who-shows-secret", op, line=l)]
+                    if num == "319":
+                        i = rest.find(" :")
+                        for x in rest[i + 2:].split(" "):
+                            if x.lstrip("~&@%+") in secret_out or (x[:1] == "&" and x in secret_out):
+                                return [fail("hidden", "whois-shows-secret", op, line=l)]
+                    # invisible users
+                    if num in ("352", "311"):
+                        nick = w[4] if num == "352" and len(w) > 4 else (w[0] if num == "311" else None)
+                        u = prev.users.get(nick)
+                        if u and "i" in u["modes"] and nick != me and not (u["chans"] & mychans):
+                            return [fail("hidden", "invisible-revealed-%s" % num, op, line=l)]
+                # NAMES <explicit secret channel>: must look like a non-existent channel (366)
+                if k == "NAMES":
+                    m = parse_irc(line.lstrip())
+                    if m and m[2]:
+                        for ch in m[2][0].split(","):
+                            if ch in secret_out and not any(re.match(r"^:\S+ 366 \S+ %s " % re.escape(ch), l) for l in outs):
+                                return [{"monitor": "hidden", "signature": "names-explicit-secret-366", "op": op.k,
+                                         "detail": {"op_text": op.text, "channel": ch}}]
+        prev = st
+    return []
+
+
+def mon_chanlife(seq, ctx):
+    prev = None
+    for op in seq.ops:
+        st = parse_state(op)
+        for ch, C in st.chans.items():
+            if not C["members"] and not C.get("pre"):
+                return [fail("chanlife", "empty-channel-survives", op, chan=ch)]
+        if prev is not None and kind_of(op) == "JOIN":
+            c, line = op_line(op)
+            cn = prev.conns.get(c)
+            if cn and cn["auth"]:
+                for ch, C in st.chans.items():
+                    if ch not in prev.chans:
+                        me = cn["nick"]
+                        if list(C["members"].items()) != [(me, "qo")]:
+                            return [fail("chanlife", "created-channel-members", op, chan=ch, members=C["members"])]
+                        if C["flags"] or C["key"] is not None or C["limit"] is not None or C["ban"] or C["exc"] \
+                                or C["invex"] or C["topic"] is not None or C.get("pre"):
+                            return [fail("chanlife", "created-channel-not-fresh", op, chan=ch)]
+        prev = st
+    return []
+
+
+def mon_admission(seq, ctx):
+    """independent recomputation of the JOIN decision for single-channel JOINs to existing channels"""
+    prev = None
+    for op in seq.ops:
+        st = parse_state(op)
+        if prev is not None and kind_of(op) == "JOIN":
+            c, line = op_line(op)
+            cn = prev.conns.get(c)
+            m = parse_irc(line.lstrip()) if line else None
+            if cn and cn["auth"] and m and 1 <= len(m[2]) <= 2 and "," not in m[2][0]:
+                ch = m[2][0]
+                me = cn["nick"]
+                u = prev.users.get(me)
+                C = prev.chans.get(ch)
+                outs = op.outs.get(c, [])
+                if u and C and me not in C["members"] and not any(re.match(r"^:\S+ (ERROR|461) ", l + " ") for l in outs):
+                    key = m[2][1] if len(m[2]) == 2 else None
+                    if key is not None and "," in key:
+                        prev = st
+                        continue
+                    src = cn["src"]
+                    key_ok = C["key"] is None or key == C["key"]
+                    banned = any(glob(b, src) for b in C["ban"]) and not any(glob(e, src) for e in C["exc"])
+                    inv_ok = ("i" not in C["flags"]) or ch in u["invited"] or any(glob(e, src) for e in C["invex"])
+                    not_full = C["limit"] is None or len(C["members"]) < C["limit"]
+                    quota = ctx.get("max_joins") is None or len(u["chans"]) < ctx["max_joins"]
+                    admit = key_ok and not banned and inv_ok and not_full and quota
+                    joined = me in st.chans.get(ch, {"members": {}})["members"]
+                    if admit != joined:
+                        return [fail("admission", "join-decision", op, expected_admit=admit, joined=joined,
+                                     key_ok=key_ok, banned=banned, inv_ok=inv_ok, not_full=not_full, quota=quota)]
+                    if not joined:
+                        # refused: nothing changes, nobody else hears about it
+                        if prev.chans != st.chans or any(l for d, l in op.outs.items() if d != c):
+                            return [fail("admission", "refused-join-had-effect", op)]
+                    else:
+                        if ch in st.users[me]["invited"]:
+                            return [fail("admission", "invitation-not-used-up", op)]
+        prev = st
+    return []
+
+
+def mon_rename(seq, ctx):
+    prev = None
+    for op in seq.ops:
+        st = parse_state(op)
+        if prev is not None and kind_of(op) == "NICK":
+            c, line = op_line(op)
+            cn = prev.conns.get(c)
+            if cn and cn["auth"] and c in st.conns:
+                old, new = cn["nick"], st.conns[c]["nick"]
+                if old != new:
+                    if old in st.users:
+                        return [fail("rename", "old-nick-still-registered", op, old=old)]
+                    a, b = prev.users.get(old), st.users.get(new)
+                    if a is None or b is None:
+                        return [fail("rename", "user-lost", op, old=old, new=new)]
+                    for f in ("modes", "away", "chans", "invited", "name", "real", "host"):
+                        if a[f] != b[f]:
+                            return [fail("rename", "field-not-moved:%s" % f, op, before=str(a[f]), after=str(b[f]))]
+                    for ch in a["chans"]:
+                        if prev.chans[ch]["members"].get(old) != st.chans.get(ch, {"members": {}})["members"].get(new):
+                            return [fail("rename", "rank-not-moved", op, chan=ch)]
+                    if (old in prev.wallops) != (new in st.wallops):
+                        return [fail("rename", "wallops-not-moved", op)]
+                else:
+                    # refused or no-op: nothing changes
+                    if prev.users != st.users or prev.chans != st.chans:
+                        return [fail("rename", "refused-nick-changed-state", op)]
+        prev = st
+    return []
+
+
+def mon_reparse(seq, ctx):
+    for op in seq.ops:
+        for d, lines in op.outs.items():
+            for l in lines:
+                if "\n" in l or l.endswith("<noeol>"):
+                    return [fail("reparse", "not-one-line", op, line=l[:200])]
+                m = parse_irc(l)
+                if m is None or m[0] is None:
+                    return [fail("reparse", "emitted-line-does-not-parse", op, line=l[:200])]
+        k = kind_of(op)
+        c, line = op_line(op)
+        if line is not None and k in ("PRIVMSG", "NOTICE", "TOPIC", "PART", "KICK", "WALLOPS", "INVITE"):
+            sent = parse_irc(line.lstrip())
+            if not sent or any(ch in line for ch in "\t\r\x0c\x0b\n"):
+                continue  # only lines whose blanks are spaces are judged (the code also splits at TAB/FF/CR)
+            for d, lines in op.outs.items():
+                for l in lines:
+                    m = parse_irc(l)
+                    if m and m[1].upper() == k and m[0] and "!" in m[0]:
+                        # relayed copy: last parameter (text / reason / topic) must be what was sent
+                        if k in ("PRIVMSG", "NOTICE") and len(sent[2]) >= 2 and m[2][-1] != sent[2][1]:
+                            return [fail("reparse", "relay-text-differs:%s" % k, op, sent=sent[2][1], got=m[2][-1])]
+                        if k in ("TOPIC",) and len(sent[2]) >= 2 and m[2][-1] != sent[2][1]:
+                            return [fail("reparse", "relay-text-differs:%s" % k, op, sent=sent[2][1], got=m[2][-1])]
+                        if k == "PART" and len(sent[2]) >= 2 and m[2][-1] != sent[2][1]:
+                            return [fail("reparse", "relay-text-differs:%s" % k, op, sent=sent[2][1], got=m[2][-1])]
+                        if k == "KICK" and len(sent[2]) >= 3 and m[2][-1] != sent[2][2]:
+                            return [fail("reparse", "relay-text-differs:%s" % k, op, sent=sent[2][2], got=m[2][-1])]
+    return []
 
 
 MON = {
-    "nopanic": mon_nopanic,
+    "nopanic": mon_nopanic, "ownership": mon_ownership, "gate": mon_gate, "membership": mon_membership,
+    "cleanup": mon_cleanup, "counters": mon_counters, "audience": mon_audience,
+    "notice_silent": mon_notice_silent, "opergrant": mon_opergrant, "hidden": mon_hidden,
+    "chanlife": mon_chanlife, "admission": mon_admission, "rename": mon_rename, "reparse": mon_reparse,
 }
 
 BY_PROP = {
-    "C05": ["nopanic"],
+    "C01": ["audience"], "C02": ["ownership"], "C03": ["gate"], "C04": ["membership"],
+    "C05": ["nopanic"], "C06": ["cleanup"], "C07": ["admission"], "C08": ["membership"],
+    "C09": ["membership"], "C10": ["notice_silent"], "C11": ["opergrant"], "C12": ["hidden"],
+    "C13": ["reparse"], "C14": [], "C15": ["rename"], "C16": ["chanlife"], "C17": [], "C18": ["nopanic"],
+    "C19": ["counters"], "C20": [],
 }
 
 
-def run_monitors(pid, seq, cfg, seqfile=None):
+def seq_ctx(cfg_lines):
+    ctx = {"max_joins": None}
+    for l in cfg_lines or []:
+        t = l.split(" ")
+        if t[1] == "max_joins":
+            ctx["max_joins"] = int(t[2])
+    return ctx
+
+
+def run_monitors(pid, seq, cfg_lines, seqfile=None):
+    if cfg_lines is None and seqfile is not None:
+        from .runner import read_ops_file
+        key = seqfile[0]
+        cache = run_monitors.__dict__.setdefault("_cache", {})
+        if key not in cache:
+            cache.clear()
+            cache[key] = read_ops_file(key)
+        cfg_lines = cache[key][seqfile[1]][1]
+    ctx = seq_ctx(cfg_lines)
     res = []
     for name in BY_PROP.get(pid, []):
-        res += MON[name](seq, cfg)
+        try:
+            res += MON[name](seq, ctx)
+        except Exception as e:  # a monitor bug must never look like a violation
+            import traceback
+            res_dbg = traceback.format_exc()
+            raise RuntimeError("monitor %s crashed: %s" % (name, res_dbg))
     return res
